@@ -1150,7 +1150,7 @@ def conforms(t, o):
 
 
 def escape_key(cname, msg):
-    m = re.sub(r"'[A-Za-z_.]+'", "T", msg)[:60]
+    m = re.sub(r"'[^']*'", "T", msg)[:60]
     return "escape:%s:%s" % (cname, m)
 
 
@@ -1160,7 +1160,7 @@ def oracle_parse(t, data, obs, expect, matching):
     bad = []
     if obs[0] == "exc":
         bad.append((escape_key(obs[1], obs[2]),
-                    "config_struct_from_dict raised %s (%s) instead of QMI_ConfigurationException" % (obs[1], obs[2][:80])))
+                    "the typed conversion raised %s (%s) instead of QMI_ConfigurationException" % (obs[1], obs[2][:80])))
         return bad
     if obs[0] == "cfgerr":
         named = named_paths(obs[1], data_paths(t, data), render_path)
@@ -1490,7 +1490,250 @@ def shipped_types():
     out = []
     for name in ("CfgQmi", "CfgContext", "CfgLogging", "CfgProcessManagement", "CfgProcessHost"):
         out.append(type_of_annotation(getattr(config_defs, name)))
+    t = adwin_type()
+    if t is not None:
+        out.append(t)
     return out
+
+
+def adwin_type():
+    """CfgAdwinProgram (qmi/utils/adwin_manager.py): required fields, Dict[str, Tuple[int, int]]"""
+    try:
+        from qmi.utils import adwin_manager
+    except Exception:  # noqa  (optional dependencies of that module)
+        return None
+    return type_of_annotation(adwin_manager.CfgAdwinProgram)
+
+
+def shipped_type(name):
+    for t in shipped_types():
+        if t[1] == name:
+            return t
+    raise KeyError(name)
+
+
+# =========================================================================================
+# Entry points: the routes through which QMI itself feeds external data into the typed parser.
+#   qmi.start(name, config_file=None, context_cfg={key: data})   -> data against CfgContext
+#   qmi.start(name, config_file=path)                            -> load_config_file + CfgQmi
+#   AdwinProgramLibrary(program_dir, config_dir)                  -> load_config_file + CfgAdwinProgram
+# (context.py builds CfgQmi() without data; there is no other caller in qmi/core, qmi/tools, qmi/utils.)
+# Each route must behave as config_struct_from_dict on the same data: same oracle, same Coq comparison.
+# Building a @configstruct object directly with keyword arguments (CfgContext(**d)) is ordinary Python: its
+# generated __init__ validates values without an item path and reports unknown / missing keywords as TypeError;
+# C16's clauses are about the typed parse, so an entry point that stops using it is what violates C16.
+# =========================================================================================
+ROUTE_NAME = "c16_route_probe"
+
+
+def _quiet_stop():
+    import qmi
+    from qmi.core.exceptions import QMI_NoActiveContextException
+    try:
+        qmi.stop()
+    except QMI_NoActiveContextException:
+        pass
+
+
+def route_start_context_cfg(context_cfg, key):
+    """qmi.start(..., context_cfg=...) -> observation in the format of impl_parse for context `key`"""
+    import qmi
+    import qmi.core.context_singleton as cs
+    from qmi.core.config_struct import config_struct_to_dict
+    from qmi.core.exceptions import QMI_ConfigurationException
+    saved = cs.QMI_CONFIG
+    cs.QMI_CONFIG = None
+    try:
+        try:
+            qmi.start(ROUTE_NAME, config_file=None, init_logging=False, context_cfg=copy.deepcopy(context_cfg))
+        except QMI_ConfigurationException as e:
+            return ("cfgerr", str(e))
+        except Exception as e:  # noqa
+            return ("exc", type(e).__name__, str(e))
+        try:
+            r = qmi.get_configured_contexts()[key]
+            return ("ok", canon(r), config_struct_to_dict(r), r)
+        except Exception as e:  # noqa
+            return ("exc", "after-start:" + type(e).__name__, str(e))
+    finally:
+        cs.QMI_CONFIG = saved
+        _quiet_stop()
+
+
+def route_start_config_file(path):
+    """qmi.start(name, config_file=path) -> ("ok", canon, back, cfg) | ("cfgerr", msg) | ("rejected", cls) | ("exc", ..)"""
+    import qmi
+    from qmi.core.config_struct import config_struct_to_dict
+    from qmi.core.exceptions import QMI_ConfigurationException
+    try:
+        try:
+            qmi.start(ROUTE_NAME, config_file=path, init_logging=False)
+        except QMI_ConfigurationException as e:
+            return ("cfgerr", str(e))
+        except ValueError as e:
+            return ("rejected", type(e).__name__, str(e))
+        except Exception as e:  # noqa
+            return ("exc", type(e).__name__, str(e))
+        try:
+            r = qmi.context().get_config()
+            return ("ok", canon(r), config_struct_to_dict(r), r)
+        except Exception as e:  # noqa
+            return ("exc", "after-start:" + type(e).__name__, str(e))
+    finally:
+        _quiet_stop()
+
+
+def chain_messages(e):
+    out = []
+    while e is not None and len(out) < 6:
+        out.append(str(e))
+        e = e.__cause__ or e.__context__
+    return " | ".join(out)
+
+
+def entry_routes(ck, rng, quick, add, fails):
+    import os
+    t_ctx, t_qmi = shipped_type("CfgContext"), shipped_type("CfgQmi")
+
+    def judge(route, t, data, obs, expect, is_match, replay_obj):
+        """same oracle and same Coq comparison as for config_struct_from_dict(data, cls)"""
+        ck.count("route:%s" % route)
+        ck.count("route:%s-outcome-%s" % (route, obs[0]))
+        ck.note_case((route, data), True)
+        bad = oracle_parse(t, data, obs, expect, is_match)
+        for key, what in bad:
+            k2 = "%s:%s" % (route, key)
+            size = len(json.dumps(replay_obj, default=repr))
+            if k2 not in fails or size < fails[k2][0]:
+                fails[k2] = (size, "C16 fails on the implementation, entry point %s: %s" % (route, what),
+                             dict(replay_obj, impl=[str(x)[:200] for x in obs[:3]]))
+        term, _ = parse_case_term(t, data, obs)
+        add(term, dict(replay_obj, flagged=bool(bad)))
+
+    # ---- qmi.start(context_cfg=...) ------------------------------------------------------------
+    for i in range(90 if quick else 1500):
+        matching = gen_data(rng, t_ctx)
+        j = i % 6
+        if j < 2:
+            data, expect, is_match = matching, None, True
+        elif j == 5:
+            data, expect, is_match = gen_plain(rng, 2), None, False
+            if not isinstance(data, dict):
+                data = {"host": data}
+        else:
+            data, expect = mutate(rng, t_ctx, matching)
+            is_match = False
+        key = rng.choice(["ctxA", "main", "c1", gen_string(rng, nasty=False)])
+        cfg = {key: data}
+        if rng.random() < 0.3:                       # a second, valid definition before or after
+            other = "zz_" + key
+            cfg = {other: gen_data(rng, t_ctx), key: data} if rng.random() < 0.5 else {key: data, other: gen_data(rng, t_ctx)}
+        obs = route_start_context_cfg(cfg, key)
+        judge("start-context_cfg", t_ctx, data, obs, expect, is_match,
+              {"kind": "route-start-context_cfg", "context_cfg": cfg, "key": key})
+
+    # ---- qmi.start(config_file=path) -----------------------------------------------------------
+    d = ck.scratch_dir()
+    fn = os.path.join(d, "qmi route.conf")
+    from qmi.core.config import dump_config_string
+    for i in range(36 if quick else 600):
+        matching = gen_data(rng, t_qmi)
+        j = i % 6
+        if j < 2:
+            data, expect, is_match = matching, None, True
+        else:
+            data, expect = mutate(rng, t_qmi, matching)
+            is_match = False
+        data.pop("config_file", None)                # start() overwrites it with the absolute file name
+        if expect and expect[1] and expect[1][0] == ("f", "config_file"):
+            expect = None
+        contexts = data.get("contexts")
+        if isinstance(contexts, dict):
+            contexts.pop(ROUTE_NAME, None)
+        doc_fault = None
+        otree = to_obj(data)
+        if j == 5 and add_dup(rng, otree):
+            doc_fault = "dup"
+        text = decorate(rng, ser(rng, otree, rng.choice(["compact", "loose"])) if (doc_fault or rng.random() < 0.5)
+                        else dump_config_string(data))
+        try:
+            with open(fn, "w", newline="") as f:
+                f.write(text)
+            with open(fn, newline="") as f:
+                if f.read() != text:
+                    continue
+        except UnicodeEncodeError:
+            continue
+        obs = route_start_config_file(fn)
+        replay_obj = {"kind": "route-start-config_file", "text": text, "data": data}
+        if doc_fault == "dup":
+            ck.count("route:start-config_file-dup")
+            ck.note_case(("start-config_file", text), True)
+            if obs[0] not in ("rejected", "cfgerr"):
+                k2 = "start-config_file:repeated-key-not-rejected"
+                fails.setdefault(k2, (0, "entry point qmi.start(config_file=...): a configuration file with a repeated key "
+                                         "was not rejected (%s)" % obs[0], replay_obj))
+            continue
+        full = dict(data, config_file=os.path.abspath(fn))
+        if obs[0] == "rejected":
+            obs = ("exc", obs[1], obs[2])
+        judge("start-config_file", t_qmi, full, obs, expect, is_match, replay_obj)
+    try:
+        os.unlink(fn)
+    except OSError:
+        pass
+
+    # ---- AdwinProgramLibrary(program_dir, config_dir) -------------------------------------------
+    t_adw = adwin_type()
+    if t_adw is None:
+        ck.count("route:adwin-library-unavailable")
+        return
+    from qmi.utils.adwin_manager import AdwinProgramLibrary
+    from qmi.core.exceptions import QMI_ConfigurationException
+    cdir = os.path.join(d, "adwin_conf")
+    os.makedirs(cdir, exist_ok=True)
+    for i in range(30 if quick else 400):
+        matching = gen_data(rng, t_adw)
+        matching.update({"slot": rng.randint(1, 10), "trigger": rng.choice(["timer", "external", "Timer"]),
+                         "priority": rng.choice([-10, 0, 3, 10, 1000]), "parse_parameters": False})
+        if i % 3 == 0:
+            data, expect, is_match = matching, None, True
+        else:
+            data, expect = mutate(rng, t_adw, matching)
+            is_match = False
+        for old in os.listdir(cdir):
+            os.unlink(os.path.join(cdir, old))
+        text = decorate(rng, dump_config_string(data))
+        try:
+            with open(os.path.join(cdir, "prog.conf"), "w", newline="") as f:
+                f.write(text)
+        except UnicodeEncodeError:
+            continue
+        direct = impl_parse(t_adw, data)
+        try:
+            lib = AdwinProgramLibrary(d, cdir)
+            got = ("ok", lib.list_programs())
+        except QMI_ConfigurationException as e:
+            got = ("cfgerr", chain_messages(e))
+        except Exception as e:  # noqa
+            got = ("exc", type(e).__name__, str(e))
+        ck.count("route:adwin-library")
+        ck.count("route:adwin-library-outcome-" + got[0])
+        ck.note_case(("adwin-library", data), True)
+        why = None
+        if got[0] == "exc":
+            why = "raised %s (%s) instead of QMI_ConfigurationException" % (got[1], got[2][:80])
+        elif is_match and got != ("ok", ["prog"]):
+            why = "refused a valid program configuration: %s" % (got[1][:100],)
+        elif direct[0] == "cfgerr" and got[0] == "ok":
+            why = "accepted data that config_struct_from_dict refuses (%s)" % direct[1][:80]
+        elif direct[0] == "cfgerr" and expect and render_path(expect[1]) and not named_in(got[1], render_path(expect[1])):
+            why = "the error (with its causes) does not name the offending item %r: %s" % (render_path(expect[1]), got[1][:120])
+        if why:
+            k2 = "adwin-library:" + why.split("(")[0].split(":")[0].strip()[:50]
+            replay_obj = {"kind": "route-adwin-library", "text": text, "data": data}
+            if k2 not in fails or len(text) < fails[k2][0]:
+                fails[k2] = (len(text), "entry point AdwinProgramLibrary(config_dir): " + why, replay_obj)
 
 
 def run(ck):
@@ -1515,6 +1758,10 @@ def run(ck):
         "typing's alias cache), one member order per Union member set per run for the same reason",
         "json.loads/json.dumps round trip, json's blindness to CR versus LF, and float(int) are library behaviour "
         "(explicit premises in Coq)",
+        "entry points: qmi.start(context_cfg=...), qmi.start(config_file=...) and AdwinProgramLibrary(config_dir) are driven "
+        "in-process (context started and stopped each time) and must behave as config_struct_from_dict on the same data; "
+        "direct keyword construction of a @configstruct object (generated __init__: values validated without item path, "
+        "unknown / missing keywords -> TypeError) is ordinary Python and no C16 claim is made about it",
         "open choices of the model, each with the pinned behaviour as one element and a theorem that every element "
         "satisfies C16's clauses: line-break rendering of the comment-free text (C16_strip_choice), layout of the "
         "dumped text (C16_dump_load_any_printer), treatment of alternative annotation spellings (policy parameter of "
@@ -1761,6 +2008,9 @@ def run(ck):
                 ambiguous += 1
                 continue
             add(term, meta)
+    # ---------------- entry points of QMI that feed external data into the typed parser ----------
+    entry_routes(ck, rng, quick, add, fails)
+
     for key in sorted(fails):            # the smallest failing case of each kind is the replay
         ck.report(key, fails[key][1], fails[key][2])
 
@@ -1921,6 +2171,49 @@ def replay(rep):
         print("model:", _model_side("(CDump %s %s %s)" % (cj(to_obj(c["tree"])), cstr(text),
                                                          "None" if isinstance(raw, str) else "(Some %s)" % cj(raw))))
         return 0 if lo[0] == "ok" and tree_eq(lo[1], to_obj(c["tree"])) else 1
+    if k.startswith("route-"):
+        import common
+        import os
+        ck = common.Check("C16")
+        try:
+            if k == "route-start-context_cfg":
+                t, data = shipped_type("CfgContext"), c["context_cfg"][c["key"]]
+                obs = route_start_context_cfg(c["context_cfg"], c["key"])
+                print("qmi.start(%r, config_file=None, context_cfg=%r)" % (ROUTE_NAME, c["context_cfg"]))
+            elif k == "route-start-config_file":
+                t = shipped_type("CfgQmi")
+                fn = os.path.join(ck.scratch_dir(), "qmi route.conf")
+                with open(fn, "w", newline="") as f:
+                    f.write(c["text"])
+                data = dict(c["data"], config_file=os.path.abspath(fn))
+                obs = route_start_config_file(fn)
+                print("qmi.start(%r, config_file=<file holding %r>)" % (ROUTE_NAME, c["text"][:300]))
+                if obs[0] == "rejected":
+                    print("->", obs)
+                    return 0
+            else:
+                from qmi.utils.adwin_manager import AdwinProgramLibrary
+                cdir = os.path.join(ck.scratch_dir(), "adwin_conf")
+                os.makedirs(cdir, exist_ok=True)
+                with open(os.path.join(cdir, "prog.conf"), "w", newline="") as f:
+                    f.write(c["text"])
+                direct = impl_parse(adwin_type(), c["data"])
+                try:
+                    print("AdwinProgramLibrary ->", AdwinProgramLibrary(ck.scratch_dir(), cdir).list_programs())
+                    ok = direct[0] == "ok"
+                except Exception as e:  # noqa
+                    print("AdwinProgramLibrary raised", type(e).__name__, chain_messages(e)[:300])
+                    ok = type(e).__name__ == "QMI_ConfigurationException"
+                print("config_struct_from_dict on the same data ->", direct[:2])
+                return 0 if ok else 1
+            print("->", obs[:3])
+            print("config_struct_from_dict on the same data ->", impl_parse(t, data)[:3])
+            print("model:", _model_side(parse_case_term(t, data, obs)[0]))
+            bad = oracle_parse(t, data, obs, None, False)
+            print("oracle:", bad or "accepted with the data back / refused with a configuration error naming an item")
+            return 1 if bad else 0
+        finally:
+            ck.cleanup()
     if k == "check":
         t = c["type"]
         if len(t) > 3:
